@@ -18,231 +18,16 @@ package main
 //      the forward one.
 
 import (
-	"fmt"
-	"go/ast"
-	"go/token"
 	"go/types"
-	"sort"
-	"strings"
-
-	"golang.org/x/tools/go/ssa"
 )
 
-func (a *c09) helmert() {
-	c := a.c
-	p := c.P.Pkg("proj")
-	info := p.TypesInfo
-	var fns []*types.Func
-	for _, fn := range c.P.RepoFuncs() {
-		if c.P.DeclPkg(fn) != p {
-			continue
-		}
-		sig := fn.Type().(*types.Signature)
-		if sig.Recv() == nil || sig.Params().Len() != 3 || sig.Results().Len() != 3 {
-			continue
-		}
-		all := true
-		for i := 0; i < 3; i++ {
-			if !isFloat64(sig.Params().At(i).Type()) || !isFloat64(sig.Results().At(i).Type()) {
-				all = false
-			}
-		}
-		if !all {
-			continue
-		}
-		// reads a []float64 field of the receiver by constant index
-		fd := c.P.Decl(fn)
-		reads := false
-		ast.Inspect(fd.Body, func(n ast.Node) bool {
-			if ix, ok := n.(*ast.IndexExpr); ok {
-				if _, ok := constInt(info, ix.Index); ok {
-					if sel, ok := unparen(ix.X).(*ast.SelectorExpr); ok {
-						if sl := info.Selections[sel]; sl != nil && sl.Kind() == types.FieldVal {
-							if st, ok := sl.Obj().Type().Underlying().(*types.Slice); ok && isFloat64(st.Elem()) {
-								reads = true
-							}
-						}
-					}
-				}
-			}
-			return true
-		})
-		if reads {
-			fns = append(fns, fn)
-		}
-	}
-	sort.Slice(fns, func(i, j int) bool { return c.P.PosLess(c.P.Decl(fns[i]).Pos(), c.P.Decl(fns[j]).Pos()) })
-	if len(fns) == 0 {
-		c.Unk("C09.R6", "proj#datum-shift", token.NoPos, "no (x,y,z)→(x,y,z) method reading the datum parameter vector found")
-		return
-	}
-	mats := map[*types.Func]*helmertForm{}
-	three := map[*types.Func]int{}
-	for _, fn := range fns {
-		a.helmertSimultaneous(fn)
-		mats[fn] = a.helmertForm(info, fn)
-		three[fn] = a.threeParam(info, fn)
-	}
-	if len(fns) == 2 && three[fns[0]] != 0 && three[fns[1]] != 0 {
-		cons := fmt.Sprintf("proj#3-parameter-pair(%s,%s)", fns[0].Name(), fns[1].Name())
-		if three[fns[0]] == -three[fns[1]] {
-			c.OK("C09.R6", cons, c.P.Decl(fns[0]).Pos(), "one direction adds the geocentric translation, the other subtracts it")
-		} else {
-			c.Bad("C09.R6", cons, c.P.Decl(fns[0]).Pos(), "both directions of the 3-parameter shift apply the translation with the same sign: shifting to WGS84 and back does not return the starting point")
-		}
-	}
-	// forward/inverse pairing: transposed rotation, opposite translation sign
-	if len(fns) == 2 && mats[fns[0]] != nil && mats[fns[1]] != nil {
-		f, g := mats[fns[0]], mats[fns[1]]
-		cons := fmt.Sprintf("proj#helmert-pair(%s,%s)", fns[0].Name(), fns[1].Name())
-		var bad []string
-		for i := 0; i < 3; i++ {
-			for j := 0; j < 3; j++ {
-				if i == j {
-					continue
-				}
-				if f.rot[i][j].k != g.rot[j][i].k || f.rot[i][j].sign != g.rot[j][i].sign {
-					bad = append(bad, fmt.Sprintf("rotation term (%s←%s) of %s is %s but (%s←%s) of %s is %s", axisN(i), axisN(j), fns[0].Name(), f.rot[i][j], axisN(j), axisN(i), fns[1].Name(), g.rot[j][i]))
-				}
-			}
-			if f.trans[i].k != g.trans[i].k || f.trans[i].sign != -g.trans[i].sign {
-				bad = append(bad, fmt.Sprintf("translation of %s: %s in %s, %s in %s (want the same parameter with opposite signs)", axisN(i), f.trans[i], fns[0].Name(), g.trans[i], fns[1].Name()))
-			}
-		}
-		if f.scaleDiv == g.scaleDiv {
-			bad = append(bad, "both directions apply the scale the same way (one must multiply by it, the other divide)")
-		}
-		if len(bad) == 0 {
-			c.OK("C09.R6", cons, c.P.Decl(fns[0]).Pos(), "the rotation matrix of one direction is the transpose of the other, translations have opposite signs, one direction multiplies by the scale and the other divides")
-		} else {
-			c.Bad("C09.R6", cons, c.P.Decl(fns[0]).Pos(), "the two directions of the 7-parameter shift are not inverse to each other: %s", strings.Join(bad, "; "))
-		}
-	} else if len(fns) != 2 {
-		c.Unk("C09.R6", "proj#helmert-pair", token.NoPos, "expected a forward and an inverse datum-shift method, found %d", len(fns))
-	}
-}
-
-func axisN(i int) string { return [...]string{"x", "y", "z"}[i] }
-
 // ---- (a) simultaneity
-
-func (a *c09) helmertSimultaneous(fn *types.Func) {
-	c := a.c
-	cons := c.P.FuncName(fn) + "#simultaneous"
-	sf := c.P.SSAFunc(fn)
-	if sf == nil {
-		c.Unk("C09.R6", cons, token.NoPos, "no SSA body")
-		return
-	}
-	depends := func(v, on ssa.Value) bool {
-		seen := map[ssa.Value]bool{}
-		var walk func(x ssa.Value, d int) bool
-		walk = func(x ssa.Value, d int) bool {
-			if x == on {
-				return true
-			}
-			if seen[x] || d > 200 {
-				return false
-			}
-			seen[x] = true
-			in, ok := x.(ssa.Instruction)
-			if !ok {
-				return false
-			}
-			for _, op := range in.Operands(nil) {
-				if *op != nil && walk(*op, d+1) {
-					return true
-				}
-			}
-			return false
-		}
-		in, ok := v.(ssa.Instruction)
-		if !ok {
-			return false
-		}
-		for _, op := range in.Operands(nil) {
-			if *op != nil && walk(*op, 0) {
-				return true
-			}
-		}
-		return false
-	}
-	nTriples := 0
-	var bad string
-	var badPos token.Pos
-	var expand func(t [3]ssa.Value, depth int)
-	expand = func(t [3]ssa.Value, depth int) {
-		if bad != "" {
-			return
-		}
-		var blk *ssa.BasicBlock
-		for _, v := range t {
-			if ph, ok := v.(*ssa.Phi); ok && depth < 6 {
-				blk = ph.Block()
-				break
-			}
-		}
-		if blk != nil {
-			for k := range blk.Preds {
-				var u [3]ssa.Value
-				for i, v := range t {
-					if ph, ok := v.(*ssa.Phi); ok && ph.Block() == blk {
-						u[i] = ph.Edges[k]
-					} else {
-						u[i] = v
-					}
-				}
-				expand(u, depth+1)
-			}
-			return
-		}
-		nTriples++
-		for i := 0; i < 3; i++ {
-			for j := 0; j < 3; j++ {
-				if i != j && t[i] != t[j] && depends(t[j], t[i]) {
-					bad = fmt.Sprintf("the returned %s is computed from the already updated %s (`%s` feeds `%s`): the three ordinates are not transformed simultaneously, so the rotation applied is not the Helmert matrix", axisN(j), axisN(i), t[i].String(), t[j].String())
-					badPos = t[j].Pos()
-					return
-				}
-			}
-		}
-	}
-	for _, b := range sf.Blocks {
-		for _, in := range b.Instrs {
-			if r, ok := in.(*ssa.Return); ok && len(r.Results) == 3 {
-				expand([3]ssa.Value{r.Results[0], r.Results[1], r.Results[2]}, 0)
-			}
-		}
-	}
-	switch {
-	case bad != "":
-		c.Bad("C09.R6", cons, badPos, "%s", bad)
-	case nTriples == 0:
-		c.Unk("C09.R6", cons, token.NoPos, "no returned triple found")
-	default:
-		c.OK("C09.R6", cons, c.P.Decl(fn).Pos(), "%d returned triples: no output ordinate is an operand of another", nTriples)
-	}
-}
 
 // ---- (b) linear form
 
 type hTerm struct {
 	k    int // parameter index, -1 none
 	sign int
-}
-
-func (t hTerm) String() string {
-	if t.sign == 0 {
-		return "absent"
-	}
-	s := "+"
-	if t.sign < 0 {
-		s = "-"
-	}
-	if t.k < 0 {
-		return s + "1"
-	}
-	return fmt.Sprintf("%sp[%d]", s, t.k)
 }
 
 type helmertForm struct {
@@ -257,444 +42,4 @@ type hProd struct {
 	params []int          // parameter indices
 	vars   []types.Object // other identifiers
 	inv    []int          // parameters divided by
-}
-
-func (a *c09) helmertForm(info *types.Info, fn *types.Func) *helmertForm {
-	c := a.c
-	fd := c.P.Decl(fn)
-	cons := c.P.FuncName(fn) + "#linear-form"
-	sc := newFnScope(info, fd.Body)
-	ps := paramVars(info, fd.Type)
-	// parameter-vector index of a local / expression
-	var paramIdxIn func(sc *fnScope, e ast.Expr, depth int) (int, bool)
-	paramIdxIn = func(sc *fnScope, e ast.Expr, depth int) (int, bool) {
-		e = unparen(e)
-		if depth > 4 {
-			return 0, false
-		}
-		if o := objOf(info, e); o != nil {
-			if ds := sc.defs[o]; len(ds) == 1 && ds[0] != nil {
-				e = unparen(ds[0])
-			}
-		}
-		if ix, ok := e.(*ast.IndexExpr); ok {
-			if k, ok := constInt(info, ix.Index); ok {
-				base := unparen(ix.X)
-				if o := objOf(info, base); o != nil {
-					if ds := sc.defs[o]; len(ds) == 1 && ds[0] != nil {
-						base = unparen(ds[0])
-					}
-				}
-				if sel, ok := base.(*ast.SelectorExpr); ok {
-					if sl := info.Selections[sel]; sl != nil && sl.Kind() == types.FieldVal {
-						return int(k), true
-					}
-				}
-			}
-		}
-		// h.f where h := recv.helper() and helper returns T{f: p[k], …}
-		if sel, ok := e.(*ast.SelectorExpr); ok {
-			if sl := info.Selections[sel]; sl != nil && sl.Kind() == types.FieldVal {
-				if o := objOf(info, sel.X); o != nil {
-					if ds := sc.defs[o]; len(ds) == 1 && ds[0] != nil {
-						if call, ok := unparen(ds[0]).(*ast.CallExpr); ok {
-							if h := callee(info, call); h != nil && c.P.Decl(h) != nil {
-								hfd := c.P.Decl(h)
-								hsc := newFnScope(info, hfd.Body)
-								var out ast.Expr
-								ast.Inspect(hfd.Body, func(n ast.Node) bool {
-									if r, ok := n.(*ast.ReturnStmt); ok && len(r.Results) == 1 {
-										if lit, ok := unparen(r.Results[0]).(*ast.CompositeLit); ok {
-											for _, el := range lit.Elts {
-												if kv, ok := el.(*ast.KeyValueExpr); ok && src(kv.Key) == sel.Sel.Name {
-													out = kv.Value
-												}
-											}
-										}
-									}
-									return true
-								})
-								if out != nil {
-									return paramIdxIn(hsc, out, depth+1)
-								}
-							}
-						}
-					}
-				}
-			}
-		}
-		return 0, false
-	}
-	paramIdx := func(e ast.Expr) (int, bool) { return paramIdxIn(sc, e, 0) }
-	// the 7-parameter statement list: the innermost block or case body one of whose own statements
-	// (not a nested list) mentions datum parameter 6, directly or through a helper's struct
-	var blkList []ast.Stmt
-	var blkPos, blkEnd token.Pos
-	consider := func(list []ast.Stmt, pos, end token.Pos) {
-		for _, st := range list {
-			found := false
-			ast.Inspect(st, func(m ast.Node) bool {
-				switch m.(type) {
-				case *ast.BlockStmt, *ast.CaseClause:
-					return false
-				}
-				if e, ok := m.(ast.Expr); ok {
-					if k, ok := paramIdx(e); ok && k == 6 {
-						found = true
-					}
-				}
-				return !found
-			})
-			if found {
-				blkList, blkPos, blkEnd = list, pos, end
-			}
-		}
-	}
-	ast.Inspect(fd.Body, func(n ast.Node) bool {
-		switch b := n.(type) {
-		case *ast.BlockStmt:
-			consider(b.List, b.Pos(), b.End())
-		case *ast.CaseClause:
-			consider(b.Body, b.Pos(), b.End())
-		}
-		return true
-	})
-	if blkList == nil {
-		c.Unk("C09.R6", cons, fd.Pos(), "statements using the seventh datum parameter not found")
-		return nil
-	}
-	blk := &ast.BlockStmt{List: blkList, Lbrace: blkPos, Rbrace: blkEnd - 1}
-	// flatten an expression into products; coordinate temporaries defined inside blk are expanded
-	var flat func(e ast.Expr, depth int) ([]hProd, bool)
-	env := map[types.Object][]hProd{} // current value of every local assigned inside the block, in statement order
-	mul := func(x, y []hProd) []hProd {
-		var out []hProd
-		for _, p := range x {
-			for _, q := range y {
-				out = append(out, hProd{p.sign * q.sign, append(append([]int{}, p.params...), q.params...), append(append([]types.Object{}, p.vars...), q.vars...), append(append([]int{}, p.inv...), q.inv...)})
-			}
-		}
-		return out
-	}
-	flat = func(e ast.Expr, depth int) ([]hProd, bool) {
-		e = unparen(e)
-		if depth > 6 {
-			return nil, false
-		}
-		if k, ok := paramIdx(e); ok {
-			return []hProd{{sign: 1, params: []int{k}}}, true
-		}
-		switch x := e.(type) {
-		case *ast.Ident:
-			o := objOf(info, x)
-			if o == nil {
-				return nil, false
-			}
-			if cur, ok := env[o]; ok {
-				out := make([]hProd, len(cur))
-				for i, p := range cur {
-					out[i] = hProd{p.sign, append([]int{}, p.params...), append([]types.Object{}, p.vars...), append([]int{}, p.inv...)}
-				}
-				return out, true
-			}
-			return []hProd{{sign: 1, vars: []types.Object{o}}}, true
-		case *ast.UnaryExpr:
-			if x.Op == token.SUB {
-				t, ok := flat(x.X, depth)
-				for i := range t {
-					t[i].sign = -t[i].sign
-				}
-				return t, ok
-			}
-			if x.Op == token.ADD {
-				return flat(x.X, depth)
-			}
-		case *ast.BinaryExpr:
-			l, ok1 := flat(x.X, depth)
-			r, ok2 := flat(x.Y, depth)
-			if !ok1 || !ok2 {
-				return nil, false
-			}
-			switch x.Op {
-			case token.ADD:
-				return append(l, r...), true
-			case token.SUB:
-				for i := range r {
-					r[i].sign = -r[i].sign
-				}
-				return append(l, r...), true
-			case token.MUL:
-				return mul(l, r), true
-			case token.QUO:
-				if len(r) == 1 && len(r[0].params) == 1 && len(r[0].vars) == 0 && r[0].sign == 1 {
-					for i := range l {
-						l[i].inv = append(l[i].inv, r[0].params[0])
-					}
-					return l, true
-				}
-			}
-		}
-		return nil, false
-	}
-	// walk the block in statement order; the outputs are the coordinate parameters' final values or the returned triple
-	var outs [3][]hProd
-	var outPos [3]token.Pos
-	have := [3]bool{}
-	assign := func(lhs []ast.Expr, rhs []ast.Expr, tok token.Token) bool {
-		if len(lhs) != len(rhs) {
-			return false
-		}
-		vals := make([][]hProd, len(rhs))
-		for i, r := range rhs {
-			if _, isParam := paramIdx(r); isParam {
-				continue // a named parameter-vector element: resolved by paramIdx at use
-			}
-			e := r
-			if tok == token.ADD_ASSIGN || tok == token.SUB_ASSIGN {
-				op := token.ADD
-				if tok == token.SUB_ASSIGN {
-					op = token.SUB
-				}
-				e = &ast.BinaryExpr{X: lhs[i], Op: op, Y: r}
-			}
-			v, ok := flat(e, 0)
-			if !ok {
-				if o := objOf(info, lhs[i]); o != nil && !isFloat64(o.Type()) {
-					continue // not a coordinate or parameter value (e.g. a parameter struct): nothing to track
-				}
-				return false
-			}
-			vals[i] = v
-		}
-		for i, l := range lhs {
-			if o := objOf(info, l); o != nil && vals[i] != nil {
-				env[o] = vals[i]
-				for k := 0; k < 3 && k < len(ps); k++ {
-					if ps[k] == o {
-						outs[k], outPos[k], have[k] = vals[i], rhs[i].Pos(), true
-					}
-				}
-			}
-		}
-		return true
-	}
-	for _, st := range blk.List {
-		ok := true
-		switch s := st.(type) {
-		case *ast.AssignStmt:
-			ok = assign(s.Lhs, s.Rhs, s.Tok)
-		case *ast.DeclStmt:
-			if gd, isGen := s.Decl.(*ast.GenDecl); isGen {
-				for _, sp := range gd.Specs {
-					if vs, isVal := sp.(*ast.ValueSpec); isVal && len(vs.Values) == len(vs.Names) {
-						var l []ast.Expr
-						for _, nm := range vs.Names {
-							l = append(l, nm)
-						}
-						ok = ok && assign(l, vs.Values, token.DEFINE)
-					}
-				}
-			}
-		case *ast.ReturnStmt:
-			if len(s.Results) == 3 {
-				for k := 0; k < 3; k++ {
-					v, ok2 := flat(s.Results[k], 0)
-					if !ok2 {
-						ok = false
-						break
-					}
-					outs[k], outPos[k], have[k] = v, s.Results[k].Pos(), true
-				}
-			}
-		}
-		if !ok {
-			c.Unk("C09.R6", cons, st.Pos(), "`%s` is not a signed sum of products of parameters and ordinates", src(st))
-			return nil
-		}
-	}
-	form := &helmertForm{}
-	// coordinate atoms: the parameter itself, or a temporary that expands to a product containing exactly that parameter
-	axisOf := func(o types.Object) int {
-		for k := 0; k < 3 && k < len(ps); k++ {
-			if ps[k] == o {
-				return k
-			}
-		}
-		return -1
-	}
-	for i := 0; i < 3; i++ {
-		if !have[i] {
-			c.Unk("C09.R6", cons, blk.Pos(), "output expression for %s not found in the 7-parameter block", axisN(i))
-			return nil
-		}
-		terms := outs[i]
-		for _, t := range terms {
-			var rots, trs []int
-			scale := false
-			for _, k := range t.params {
-				switch {
-				case k <= 2:
-					trs = append(trs, k)
-				case k <= 5:
-					rots = append(rots, k)
-				case k == 6:
-					scale = true
-				}
-			}
-			for _, k := range t.inv {
-				if k == 6 {
-					form.scaleDiv = true
-				}
-			}
-			_ = scale
-			switch {
-			case len(t.vars) == 1 && axisOf(t.vars[0]) >= 0 && len(trs) == 0 && len(rots) <= 1:
-				j := axisOf(t.vars[0])
-				ht := hTerm{k: -1, sign: t.sign}
-				if len(rots) == 1 {
-					ht.k = rots[0]
-				}
-				if form.rot[i][j].sign != 0 {
-					c.Bad("C09.R6", cons, outPos[i], "the %s output has two terms in %s", axisN(i), axisN(j))
-					return nil
-				}
-				form.rot[i][j] = ht
-			case len(t.vars) == 0 && len(trs) == 1 && len(rots) == 0:
-				// pure translation term (forward: +D; inverse after expansion: −D/M)
-				if form.trans[i].sign != 0 && form.trans[i].k != trs[0] {
-					c.Bad("C09.R6", cons, outPos[i], "the %s output has two different translation parameters", axisN(i))
-					return nil
-				}
-				form.trans[i] = hTerm{k: trs[0], sign: t.sign}
-			case len(t.vars) == 0 && len(trs) == 1 && len(rots) == 1:
-				// second-order cross term of the expanded inverse (R·D/M): implied by the first-order ones
-			case len(t.vars) == 1 && axisOf(t.vars[0]) >= 0 && len(rots) >= 2:
-				c.Bad("C09.R6", cons, outPos[i], "the %s output contains a product of %d rotation parameters with %s: an ordinate updated earlier in the block was read again, so the three ordinates are not rotated simultaneously", axisN(i), len(rots), axisN(axisOf(t.vars[0])))
-				return nil
-			default:
-				c.Unk("C09.R6", cons, outPos[i], "term of the %s output not recognised (parameters %v, %d ordinates)", axisN(i), t.params, len(t.vars))
-				return nil
-			}
-		}
-	}
-	// per-function checks: diagonal +1, translation index = axis, rotation index = 3 + third axis, antisymmetry
-	var bad []string
-	for i := 0; i < 3; i++ {
-		if d := form.rot[i][i]; !(d.sign == 1 && d.k == -1) {
-			bad = append(bad, fmt.Sprintf("the %s output's own-axis term is %s, want +1·%s", axisN(i), d, axisN(i)))
-		}
-		if t := form.trans[i]; t.sign == 0 || t.k != i {
-			bad = append(bad, fmt.Sprintf("the %s output is translated by %s, want parameter %d", axisN(i), t, i))
-		}
-		for j := 0; j < 3; j++ {
-			if i == j {
-				continue
-			}
-			third := 3 - i - j
-			r := form.rot[i][j]
-			if r.sign == 0 || r.k != 3+third {
-				bad = append(bad, fmt.Sprintf("the coupling %s←%s is %s, want ±p[%d] (rotation about %s)", axisN(i), axisN(j), r, 3+third, axisN(third)))
-			} else if s := form.rot[j][i]; s.sign != 0 && s.sign != -r.sign {
-				if i < j {
-					bad = append(bad, fmt.Sprintf("the couplings %s←%s (%s) and %s←%s (%s) have the same sign: the small-angle rotation matrix must be antisymmetric", axisN(i), axisN(j), r, axisN(j), axisN(i), s))
-				}
-			}
-		}
-	}
-	if len(bad) > 0 {
-		c.Bad("C09.R6", cons, blk.Pos(), "%s", strings.Join(bad, "; "))
-		return nil
-	}
-	c.OK("C09.R6", cons, blk.Pos(), "x: %s·x %s·y %s·z, y: %s·x %s·y %s·z, z: %s·x %s·y %s·z; translations p[0..2] on their own axes; scale %s", form.rot[0][0], form.rot[0][1], form.rot[0][2], form.rot[1][0], form.rot[1][1], form.rot[1][2], form.rot[2][0], form.rot[2][1], form.rot[2][2], map[bool]string{true: "divided out", false: "multiplied in"}[form.scaleDiv])
-	return form
-}
-
-// threeParam: the block that only reads parameters 0..2 must update ordinate k by ±p[k]
-// with one common sign; returns that sign (0 after reporting a problem).
-func (a *c09) threeParam(info *types.Info, fn *types.Func) int {
-	c := a.c
-	fd := c.P.Decl(fn)
-	cons := c.P.FuncName(fn) + "#3-parameter"
-	ps := paramVars(info, fd.Type)
-	var blk *ast.BlockStmt
-	consider := func(list []ast.Stmt, pos, end token.Pos) {
-		maxK, reads := int64(-1), false
-		for _, st := range list {
-			ast.Inspect(st, func(m ast.Node) bool {
-				switch m.(type) {
-				case *ast.BlockStmt, *ast.CaseClause:
-					return false
-				}
-				if ix, ok := m.(*ast.IndexExpr); ok {
-					if k, ok := constInt(info, ix.Index); ok {
-						if _, isSel := unparen(ix.X).(*ast.SelectorExpr); isSel {
-							reads = true
-							if k > maxK {
-								maxK = k
-							}
-						}
-					}
-				}
-				return true
-			})
-		}
-		if reads && maxK == 2 && blk == nil {
-			blk = &ast.BlockStmt{List: list, Lbrace: pos, Rbrace: end - 1}
-		}
-	}
-	ast.Inspect(fd.Body, func(n ast.Node) bool {
-		switch b := n.(type) {
-		case *ast.BlockStmt:
-			if b != fd.Body {
-				consider(b.List, b.Pos(), b.End())
-			}
-		case *ast.CaseClause:
-			consider(b.Body, b.Pos(), b.End())
-		}
-		return true
-	})
-	if blk == nil {
-		c.Unk("C09.R6", cons, fd.Pos(), "3-parameter block not found")
-		return 0
-	}
-	sign := [3]int{}
-	for _, st := range blk.List {
-		as, ok := st.(*ast.AssignStmt)
-		if !ok || len(as.Lhs) != 1 || len(as.Rhs) != 1 {
-			continue
-		}
-		for k := 0; k < 3 && k < len(ps); k++ {
-			if objOf(info, as.Lhs[0]) != ps[k] {
-				continue
-			}
-			ix, isIx := unparen(as.Rhs[0]).(*ast.IndexExpr)
-			sg := 0
-			switch as.Tok {
-			case token.ADD_ASSIGN:
-				sg = 1
-			case token.SUB_ASSIGN:
-				sg = -1
-			case token.ASSIGN:
-				if b, ok := unparen(as.Rhs[0]).(*ast.BinaryExpr); ok && objOf(info, b.X) == ps[k] && (b.Op == token.ADD || b.Op == token.SUB) {
-					ix, isIx = unparen(b.Y).(*ast.IndexExpr)
-					sg = map[token.Token]int{token.ADD: 1, token.SUB: -1}[b.Op]
-				}
-			}
-			if !isIx || sg == 0 {
-				c.Unk("C09.R6", cons, as.Pos(), "`%s` is not ordinate ± parameter", src(as))
-				return 0
-			}
-			if kk, ok := constInt(info, ix.Index); !ok || int(kk) != k {
-				c.Bad("C09.R6", cons, as.Pos(), "`%s` shifts %s by parameter %s, want parameter %d", src(as), axisN(k), src(ix.Index), k)
-				return 0
-			}
-			sign[k] = sg
-		}
-	}
-	if sign[0] == 0 || sign[0] != sign[1] || sign[1] != sign[2] {
-		c.Bad("C09.R6", cons, blk.Pos(), "the three ordinates are not all shifted with the same sign (x %+d, y %+d, z %+d)", sign[0], sign[1], sign[2])
-		return 0
-	}
-	c.OK("C09.R6", cons, blk.Pos(), "x, y, z shifted by %+d·p[0], p[1], p[2]", sign[0])
-	return sign[0]
 }
